@@ -81,6 +81,17 @@ Theorem C17_explicit_height_is_not_a_boundary :
     te_nonce (e_tx (rpc_read_env cf g ti (Some h) now gas)) = nonce_of g (ti_from ti).
 Proof. exact (read_at_height_number PM PS). Qed.
 
+(* The one place where the RPC layer maps "the same request" to different transactions: a
+   brc20_deploy with empty data is a call to the invalid address, an eth_call without `to` is a
+   creation (of nothing).  Both succeed with empty return data; the environments differ in kind. *)
+Theorem C17_empty_deploy_is_a_call :
+  forall from data, d_len data = 0 ->
+    ti_to (deploy_ti INVALID_ADDRESS from data) = KCall INVALID_ADDRESS /\
+    ti_to (ethcall_ti INVALID_ADDRESS (Some from) None data) = KCreate /\
+    (forall data', d_len data' <> 0 ->
+       deploy_ti INVALID_ADDRESS from data' = ethcall_ti INVALID_ADDRESS (Some from) None data').
+Proof. exact (empty_deploy_is_a_call INVALID_ADDRESS). Qed.
+
 (* Non-vacuity: a concrete pair of environments that differ in all four blanked fields and
    nowhere else. *)
 Example C17_nonvacuous :
